@@ -76,7 +76,8 @@ def case_strategy(draw):
     ints = draw(st.lists(st.integers(0, 65535), min_size=24, max_size=24))
     ctx = draw(st.sampled_from(["strict", "warn", "ignore", "default"]))
     if draw(st.integers(0, 2)) == 0:
-        blocks = draw(MG.gen_schedule(kinds=list(MG.GENERATORS) + list(MG.EXTRA_GENERATORS)))
+        # (rarely used keywords weighted up: their handlers are where unguarded assumptions live)
+        blocks = draw(MG.gen_schedule(kinds=list(MG.GENERATORS) + list(MG.EXTRA_GENERATORS) + ["wellextra"] * 5 + ["rare"] * 5 + ["groupextra"] * 2))
         if draw(st.integers(0, 2)) == 0:
             # a report keyword in the old integer-control style, of arbitrary length (positions have meanings up to ~30..80)
             blocks[draw(st.integers(0, len(blocks) - 1))]["kws"].insert(0, "%s\n %s /\n" % (
